@@ -28,6 +28,9 @@ Inductive ihop :=
 | IFault (i : nat) (in_meta : bool) (cut : nat) (acked : bool)
                               (* one write of the bulk failed with an I/O error after `cut` bytes;
                                  acked = what the real store answered *)
+| IFaultCrash (i : nat) (a c : nat)
+                              (* the process died between the failing write and the end of the
+                                 rollback: a / c bytes of the docs / meta block are in the files *)
 | IObs                        (* fetch + search in the running store, no restart *)
 | ICrashIn (i : nat) (k t kd km : nat)
 | IPower
@@ -41,6 +44,7 @@ Definition hops_of (bs : list bulk) (o : ihop) : list hop :=
   | IBulk i => [HBulk (nth i bs dummy_bulk)]
   | IConc is => map (fun i => HBulk (nth i bs dummy_bulk)) is
   | IFault i fm cut _ => [HFault (nth i bs dummy_bulk) fm cut]
+  | IFaultCrash i a c => [HFaultCrash (nth i bs dummy_bulk) a c]
   | IObs => []
   | ICrashIn i k t kd km => [HCrashIn (nth i bs dummy_bulk) k t kd km]
   | IPower => [HPower]
@@ -242,6 +246,9 @@ Fixpoint spec_walk (bs : list bulk) (h : list ihop) (obs : list iobs) (tr : trac
       (* a bulk whose write failed must not be acknowledged *)
       if up tr then negb a &&
                     spec_walk bs r obs (Track true (acked tr) (tried tr ++ [i]) (pres tr) (remn i (abs tr)))
+      else spec_walk bs r obs tr
+  | IFaultCrash i _ _ :: r =>
+      if up tr then spec_walk bs r obs (Track false (acked tr) (tried tr ++ [i]) (pres tr) (remn i (abs tr)))
       else spec_walk bs r obs tr
   | ICrashIn i _ _ _ _ :: r =>
       if up tr then spec_walk bs r obs (Track false (acked tr) (tried tr ++ [i]) (pres tr) (remn i (abs tr)))
